@@ -1,3 +1,4 @@
+import Noodles.Props.C08Tok
 import Noodles.Cram.Num
 import Noodles.Cram.NumProof
 import Noodles.Cram.Rans4x8
